@@ -31,7 +31,9 @@ CATS = ["create", "fix", "trim", "update"]
 @st.composite
 def _site(draw, idx):
     op = draw(st.sampled_from(["eq", "le", "ge", "in", "getitem", "eq", "le", "in"]))
-    status = draw(st.sampled_from(["ok", "ok", "wrong", "missing"]))
+    status = draw(st.sampled_from(["ok", "ok", "wrong", "missing", "wrongtype"]))
+    if status == "wrongtype" and op not in ("le", "ge"):
+        status = "wrong"
     xs = draw(st.lists(st.integers(0, 50), min_size=1, max_size=4))
     place = draw(st.sampled_from(["inline", "inline", "var", "module", "module", "loop"]))
     late = draw(st.booleans())  # in a loop: only the last iteration is wrong
@@ -73,6 +75,10 @@ def site_code(s):
         x = xs[0]
         arg = {"ok": repr(x), "wrong": repr(x + 1), "missing": ""}[status]
         return arg, [repr(x)] * len(xs)
+    if op in ("le", "ge") and status == "wrongtype":
+        # the bound in the source cannot be ordered against the observed value (a str against an int): the
+        # plain comparison raises, so the test can never be green
+        return repr(xs[0]), [repr("v%d" % x) for x in xs]
     if op == "le":  # x <= snapshot(bound)
         arg = {"ok": repr(max(xs) + 1), "wrong": repr(max(xs) - 1), "missing": ""}[status]
         order = sorted(xs) if s["late"] else list(xs)
